@@ -20,8 +20,27 @@ import flow
 TOL = 1e-9
 
 
-def check_stream(kind, p, X, mode="MT+", eps=0.0, veto=None, ylab=None):
-    """present X one row at a time through the public API and check the clauses; returns list of (sig, text, i)"""
+def centre_row(est, kind, j):
+    """the reported centre of category j as a prepared sample, or None when it is not valid data for the module"""
+    if kind == "ART1":
+        return None
+    try:
+        if getattr(est, "d_max_", 0) is None:
+            est.d_min_, est.d_max_ = np.zeros(1), np.ones(1)
+        cen = np.asarray(est.get_cluster_centers()[j], dtype=float).ravel()
+        row = np.concatenate([cen, 1.0 - cen]) if kind == "Fuzzy" else cen
+        if not np.all(np.isfinite(row)):
+            return None
+        est.validate_data(row.reshape(1, -1))
+        return row
+    except (AssertionError, NotImplementedError, ValueError, TypeError, IndexError):
+        return None
+
+
+def check_stream(kind, p, X, mode="MT+", eps=0.0, veto=None, ylab=None, centre_at=(), presented=None):
+    """present X one row at a time through the public API and check the clauses; returns list of (sig, text, i).
+    At the positions in centre_at the row is replaced by the current centre of an existing category
+    (samples that coincide with a category centre); the rows actually presented are appended to `presented`."""
     import artlib
     out = []
     est = K.make(kind, p)
@@ -30,7 +49,15 @@ def check_stream(kind, p, X, mode="MT+", eps=0.0, veto=None, ylab=None):
     enclosed = []          # (sample, category) pairs once enclosed
     lowering = (mode == "MT-" and ylab is not None)
     rho = float(p["rho"])
-    for i, x in enumerate(X):
+    X = np.array(X, dtype=float).copy()
+    for i in range(len(X)):
+        if i in centre_at and hasattr(est, "W") and len(est.W) > 0:
+            row = centre_row(est, kind, i % len(est.W))
+            if row is not None and row.shape == X[i].shape:
+                X[i] = row
+        x = X[i]
+        if presented is not None:
+            presented.append(x.tolist())
         Wb = [np.array(w, dtype=float).copy() for w in est.W] if hasattr(est, "W") else []
         try:
             with np.errstate(all="ignore"):
@@ -131,10 +158,13 @@ def stream_oracle(rng, n):
         kind, p, X, mode, eps, y = gen_stream(rng)
         cnt += 1
         kinds[kind] = kinds.get(kind, 0) + 1
-        for sig, text, i in check_stream(kind, p, X, mode, eps, None, y):
+        centre_at = set(i for i in range(2, len(X)) if rng.random() < 0.3) if rng.random() < 0.5 else set()
+        presented = []
+        for sig, text, i in check_stream(kind, p, X, mode, eps, None, y, centre_at, presented):
             fails.append({"signature": sig, "text": text,
                           "replay": {"kind": kind, "params": {k: (np.asarray(v).tolist() if isinstance(v, np.ndarray) else v) for k, v in p.items()},
-                                     "X": X.tolist(), "y": y, "mode": mode, "eps": eps, "failing_sample": i}})
+                                     "X": presented, "y": y, "mode": mode, "eps": eps, "failing_sample": i,
+                                     "rows_that_are_category_centres": sorted(centre_at)}})
     return fails, cnt, kinds
 
 
